@@ -241,6 +241,9 @@ impl<const BITS: usize, const LIMBS: usize> Uint<BITS, LIMBS> {
     #[inline(always)]
     #[must_use]
     const fn from_limbs_unmasked(limbs: [u64; LIMBS]) -> Self {
+        // Mention `Self::LIMBS` so that its `LIMBS == nlimbs(BITS)` check is
+        // evaluated for this constructor (and the constants built on it) too.
+        let _ = Self::LIMBS;
         Self { limbs }.masked()
     }
 
